@@ -193,3 +193,16 @@ CHECKS["C19"] = dict(
     assumptions=[],
 )
 ENGINES.append(dict(name="E-BLK", path="harness/blk.cpp", serves_properties=["C11", "C19", "C02", "C10"], kind_free_text="exhaustive operation-sequence enumeration on real CdnsBlock / CdnsBlockRead objects"))
+
+CHECKS["C14"] = dict(
+    level="model_checking", engine="E-COMP",
+    technique="explicit-state enumeration on the implementation: every call sequence over {write(size, content class), rotate} up to a length on the real gzip/xz writers, outputs decompressed by zlib/liblzma decoders (and Python's gzip/lzma in the thorough tier) and compared with the bytes written",
+    level_text="All sequences up to the bound over writes of sizes {0,1,2,2047,2048,2049,65536,1 MiB} x content classes {zeros, text-like, incompressible, gzip-looking} and rotations, for GZIP and XZ, to named files and descriptors, plus single writes of 5..48 MiB (8 MiB in the quick tier) alone and after a rotation: every output file must carry the .gz/.xz suffix (named), have no .part left, be exactly one complete stream (decoder reaches stream end with no input left) and decompress to exactly the bytes written since the previous rotation. Runs on an uninstrumented build with the default 8 MiB stack in forked workers, so a crash of the writer is attributed to its sequence.",
+    level_note="Trusted: zlib inflate / liblzma stream decoder as decompressors (Python's gzip and lzma modules wrap the same C libraries; they are run on a sample in the thorough tier as a cross-check of the harness' own decoder loop). The end-to-end path through the exporter is covered by C13's gzip/xz profiles.",
+    stages=[dict(harness="comp", variant="plain"),
+            dict(kind="py", harness="decomp", tiers=("thorough",), prefix="py_")],
+    rule="stateless DFS over the (size, class)/rotate alphabet for 2 formats x 2 sink kinds; non-trivial = at least one step; all distinct",
+    bound_quick="sequences of length <= 2 (29 steps alphabet) + 8 MiB single writes", bound_thorough="length <= 3 + single writes of 5, 6, 8, 16, 48 MiB",
+    assumptions=["default RLIMIT_STACK (8 MiB)"],
+)
+ENGINES.append(dict(name="E-COMP", path="harness/comp.cpp", serves_properties=["C14"], kind_free_text="exhaustive write/rotate sequence enumeration on the real compressing writers"))
